@@ -2,15 +2,19 @@
 """Copy a verified seeded change from an agent's scratch worktree into /verif/seeded/<id>/."""
 import json, os, shutil, sys
 pid, x = sys.argv[1], sys.argv[2]
-src = f"/tmp/wt-{pid}/.seeded/{x}"
+pfx = sys.argv[3] if len(sys.argv) > 3 else "/tmp/wt-"
+src = f"{pfx}{pid}/.seeded/{x}"
 dst = f"/verif/seeded/{pid}-{x}"
 os.makedirs(dst, exist_ok=True)
-for f in os.listdir(src):
-    if f in ("tests_with.txt",):
-        continue
-    p = os.path.join(src, f)
-    if os.path.isfile(p) and os.path.getsize(p) < 400_000:
-        shutil.copy(p, os.path.join(dst, f))
+for base, dirs, files in os.walk(src):
+    for f in files:
+        if f in ("tests_with.txt",):
+            continue
+        p = os.path.join(base, f)
+        rel = os.path.relpath(p, src)
+        if os.path.getsize(p) < 400_000:
+            os.makedirs(os.path.dirname(os.path.join(dst, rel)) or dst, exist_ok=True)
+            shutil.copy(p, os.path.join(dst, rel))
 meta = {}
 try:
     meta = json.load(open(os.path.join(src, "meta.json")))
@@ -19,10 +23,11 @@ except Exception as e:
 ver = open(os.path.join(src, "verify.txt")).read()
 meta["property"] = pid
 meta["verified_by_harness_author"] = {
-    "where": f"scratch worktree /tmp/wt-{pid} (removed afterwards)",
+    "where": f"scratch worktree {pfx}{pid} (removed afterwards)",
     "ran": ["git apply patch.diff", "cargo build --offline", "cargo test --workspace --offline", "rva lint <demo>.s --compact/--debug/--json with and without the change"],
     "tests_pass_with_change": "TESTS PASS" in ver,
     "demo_output_differs": "DEMO DIFFERS" in ver,
+    "demo_test_passes_without_and_fails_with": ("DEMO TEST PASSES (without)" in ver and "DEMO TEST FAILS (with)" in ver) if "DEMO TEST" in ver else None,
 }
 json.dump(meta, open(os.path.join(dst, "meta.json"), "w"), indent=1)
 print(dst, meta["verified_by_harness_author"]["tests_pass_with_change"], meta["verified_by_harness_author"]["demo_output_differs"])
